@@ -25,7 +25,15 @@ RULE = (
     "settings, on NEAR-TIE matrices: per criterion a small pool of values that differ by a tiny non-zero amount (250000 vs 250001, "
     "0.1+0.2 vs 0.3, 1e-9 vs 3e-9, relative 2^-24, one ulp; also whole-number matrices of dtype int) plus forced pairs whose "
     "dominance is decided by such a difference alone (one alternative worse only by the tiny amount; better only by the tiny "
-    "amount and clearly worse elsewhere; worse by the tiny amount on every criterion) - exact cases for the rational oracle. "
+    "amount and clearly worse elsewhere; worse by the tiny amount on every criterion) - exact cases for the rational oracle; "
+    "(c) function-based Filter with 2-4 conditions (4-12 alternatives) where a condition that is NOT written first is a WHOLE-COLUMN "
+    "function (>= / > / <= / < the column's median, mean or lower median, == / < its max, == / > its min, among the k largest / k "
+    "smallest, lower / upper half of its range; mean / median / range only on the k/8 grid where float arithmetic is exact, the "
+    "order statistics also on arbitrary doubles) and the conditions written before it reject alternatives whose removal would change "
+    "that condition's verdict on a remaining alternative (guaranteed by construction), each condition set also run in another written "
+    "order - every condition is judged on the criterion as given; (d) FilterNonDominated, both strict settings, on ALL-INTEGER (int64) "
+    "matrices with criteria whose values are whole numbers beyond 2^53 that differ by 1-3 units (2^53+1 vs 2^53, also 2^54.., 2^62.., "
+    "negative) with the same forced pairs as in (b), compared with exact integer arithmetic. "
     "Thorough tier adds the exhaustive enumeration: "
     "every matrix with <= 3 alternatives x <= 2 criteria over {0,1,2}, every non-empty condition set over {C0, C1, absent ZZ} "
     "with thresholds in {1,2} in every key order, both ignore settings, all nine by-criteria classes; and every such matrix "
@@ -241,13 +249,8 @@ def _near_pool(rng, kind):
 NEAR_KINDS = ["big", "tiny", "decimal", "rel", "ulp", "plain"]
 
 
-def _near_tie_case(rng):
-    m = rng.randint(2, 10)
-    n = rng.randint(1, 5)
-    objs = G.objectives(rng, n)
-    one_kind = rng.choice(NEAR_KINDS[:5]) if rng.random() < 0.5 else None
-    kinds = [one_kind or rng.choice(NEAR_KINDS) for _ in range(n)]
-    pools = [_near_pool(rng, k) for k in kinds]
+def _forced_rows(rng, m, n, objs, pools):
+    """m rows drawn from the per-criterion pools + forced pairs whose dominance is decided by a tiny difference alone"""
     rows = [[rng.choice(pools[j]) for j in range(n)] for _ in range(m)]
 
     def worse(j, x, tiny=True):
@@ -291,6 +294,17 @@ def _near_tie_case(rng):
                     w = worse(j, rows[i][j], tiny=rng.random() < 0.5)
                     if w is not None and rng.random() < 0.8:
                         rows[i][j] = w
+    return rows
+
+
+def _near_tie_case(rng):
+    m = rng.randint(2, 10)
+    n = rng.randint(1, 5)
+    objs = G.objectives(rng, n)
+    one_kind = rng.choice(NEAR_KINDS[:5]) if rng.random() < 0.5 else None
+    kinds = [one_kind or rng.choice(NEAR_KINDS) for _ in range(n)]
+    pools = [_near_pool(rng, k) for k in kinds]
+    rows = _forced_rows(rng, m, n, objs, pools)
     whole = all(float(x).is_integer() for row in rows for x in row)
     dm = {
         "matrix": rows, "int_matrix": whole and rng.random() < 0.5, "objectives": objs, "weights": G.weights(rng, n, "dyadic"),
@@ -298,6 +312,141 @@ def _near_tie_case(rng):
         "family": "near-tie:" + (one_kind or "mixed"),
     }
     return {"dm": dm, "runs": [{"cls": "NonDominated", "strict": s} for s in rng.sample([False, True], 2)]}
+
+
+# ---- whole numbers beyond 2^53 (FilterNonDominated on an all-integer matrix): exact in int64, equal after rounding to a double
+
+
+def _bigint_pool(rng):
+    sign = -1 if rng.random() < 0.2 else 1
+    e = rng.choice([53, 53, 53, 54, 55, 60, 62])
+    c = 2 ** e + 2 * rng.randint(0, 2 ** 20)  # an even whole number >= 2^53: c + 1 is not a double
+    pool = [sign * v for v in [c, c + 1, c - 1 if e > 53 else c + 3, c + 2][: rng.randint(2, 4)]]
+    if rng.random() < 0.4:
+        pool.append(sign * (c + rng.choice([-1, 1]) * rng.choice([2 ** 12, 2 ** 30])))
+    return pool
+
+
+def _small_int_pool(rng):
+    c = rng.randint(1, 40)
+    pool = [c, c + 1, c - 1, c + 2][: rng.randint(2, 4)]
+    if rng.random() < 0.4:
+        pool.append(c + rng.choice([-20, 20]))
+    return pool
+
+
+def _bigint_nd_case(rng):
+    m = rng.randint(2, 8)
+    n = rng.randint(1, 5)
+    objs = G.objectives(rng, n)
+    big = [True] * n if rng.random() < 0.4 else [rng.random() < 0.5 for _ in range(n)]
+    big[rng.randrange(n)] = True
+    pools = [_bigint_pool(rng) if b else _small_int_pool(rng) for b in big]
+    rows = _forced_rows(rng, m, n, objs, pools)
+    dm = {
+        "matrix": [[int(x) for x in row] for row in rows], "int_matrix": True, "objectives": objs,
+        "weights": G.weights(rng, n, "dyadic"),
+        "alternatives": G.labels(rng, G.LABEL_POOL_ALT, m), "criteria": G.labels(rng, G.LABEL_POOL_CRIT, n),
+        "family": "int-beyond-2^53",
+    }
+    return {"dm": dm, "runs": [{"cls": "NonDominated", "strict": s} for s in rng.sample([False, True], 2)]}
+
+
+# ---- function-based Filter whose conditions look at the criterion as a whole (median, mean, max, rank ...)
+
+COLREL_ORDER = ["eq_max", "lt_max", "eq_min", "gt_min", "top", "bottom", "ge_lomed", "gt_lomed", "le_lomed", "lt_lomed"]
+COLREL_ARITH = ["ge_median", "gt_median", "le_median", "lt_median", "ge_mean", "gt_mean", "le_mean", "lt_mean",
+                "lower_half_range", "upper_half_range"]  # float arithmetic: generated on the k/8 grid only (exact there)
+COLREL = set(COLREL_ORDER + COLREL_ARITH)
+
+
+def _col_induced(v, col):
+    """the element-wise condition that the whole-column condition `v` IS on the criterion `col` (exact Fractions, the column as
+    given, every alternative included): [name, threshold]"""
+    name = v[0]
+    s = sorted(col)
+    m = len(s)
+    if name.endswith("_median"):
+        return [name[:2], (s[(m - 1) // 2] + s[m // 2]) / 2]
+    if name.endswith("_mean"):
+        return [name[:2], sum(s, Fraction(0)) / m]
+    if name.endswith("_lomed"):
+        return [name[:2], s[(m - 1) // 2]]
+    if name.endswith("_max"):
+        return [name[:2], s[-1]]
+    if name.endswith("_min"):
+        return [name[:2], s[0]]
+    if name == "top":  # fewer than k values of the column are strictly greater
+        return ["ge", min(x for x in s if sum(1 for y in s if y > x) < v[1])]
+    if name == "bottom":  # fewer than k values of the column are strictly smaller
+        return ["le", max(x for x in s if sum(1 for y in s if y < x) < v[1])]
+    if name == "lower_half_range":
+        return ["le", s[0] + (s[-1] - s[0]) / 2]
+    if name == "upper_half_range":
+        return ["ge", s[0] + (s[-1] - s[0]) / 2]
+    raise KeyError(name)
+
+
+def _fn_survivors(dm, conds, on_the_fly=False):
+    """indices satisfying every condition on a present criterion; on_the_fly=False: every condition judged on the criterion as
+    given (what the property says); True: each condition judged on what the conditions written before it left - used by the
+    generator only, to pick condition sets for which the two differ"""
+    crits, rows = dm["criteria"], dm["matrix"]
+    alive = list(range(len(rows)))
+    for c, v in conds:
+        if c not in crits or not alive:
+            continue
+        j = crits.index(c)
+        if v[0] in COLREL:
+            v = _col_induced(v, [C.F(rows[i][j]) for i in (alive if on_the_fly else range(len(rows)))])
+        alive = [i for i in alive if _sat("Fn", rows[i][j], v)]
+    return alive
+
+
+def _colrel_pred(rng, m, exact_arith):
+    r = rng.random()
+    if exact_arith and r < 0.6:
+        return [rng.choice(COLREL_ARITH)]
+    k = rng.choice(COLREL_ORDER)
+    if k in ("top", "bottom"):
+        return [k, rng.randint(1, max(1, m - 1))]
+    return [k]
+
+
+def _colrel_case(rng):
+    best = None
+    for _ in range(8):
+        fam = rng.choice(["dyadic", "dyadic", "float"])
+        dm = G.dm_case(rng, family=fam, positive=rng.random() < 0.6, ties=rng.choice([0.1, 0.3, 0.5]), dups=0.1,
+                       max_m=12, max_n=6, min_m=4, min_n=2)
+        crits, m = dm["criteria"], len(dm["matrix"])
+        for _ in range(40):
+            keys = rng.sample(crits, rng.randint(2, min(len(crits), 4)))
+            conds = []
+            for p, c in enumerate(keys):
+                col = [row[crits.index(c)] for row in dm["matrix"]]
+                if p == len(keys) - 1 and not any(v[0] in COLREL for _, v in conds[1:]) or rng.random() < 0.5:
+                    conds.append([c, _colrel_pred(rng, m, fam == "dyadic")])
+                else:
+                    conds.append([c, _pred(rng, col)])
+            best = best or (dm, conds)
+            if _fn_survivors(dm, conds) != _fn_survivors(dm, conds, on_the_fly=True):
+                best = (dm, conds)
+                break
+        else:
+            continue
+        break
+    dm, conds = best
+    ig = rng.random() < 0.5
+    if rng.random() < 0.15:  # plus a condition on an absent criterion, anywhere
+        conds = list(conds)
+        conds.insert(rng.randint(0, len(conds)), [rng.choice([a for a in ABSENT_POOL if a not in dm["criteria"]]), _pred(rng, [rng.randint(0, 40) / 8])])
+        ig = rng.random() < 0.8
+    runs = [{"cls": "Fn", "conds": conds, "ignore": ig}]
+    other = list(reversed(conds)) if rng.random() < 0.5 else rng.sample(conds, len(conds))
+    if other != conds:
+        runs.append({"cls": "Fn", "conds": other, "ignore": ig})
+    return {"dm": dm, "runs": runs}
 
 
 def _malformed_cases(rng):
@@ -370,6 +519,10 @@ def gen(ctx):
         cases.append(_long_set_case(rng))
     for _ in range(ctx.n(300, 2500)):
         cases.append(_near_tie_case(rng))
+    for _ in range(ctx.n(300, 1500)):
+        cases.append(_colrel_case(rng))
+    for _ in range(ctx.n(150, 600)):
+        cases.append(_bigint_nd_case(rng))
     if ctx.thorough:
         cases.extend(_exhaustive())
     return cases
@@ -377,7 +530,8 @@ def gen(ctx):
 
 def search_gen(ctx):
     rng = ctx.rng
-    return [_random_case(rng) for _ in range(3000)] + [_long_set_case(rng) for _ in range(600)] + [_near_tie_case(rng) for _ in range(600)]
+    return [_random_case(rng) for _ in range(3000)] + [_long_set_case(rng) for _ in range(600)] + [_near_tie_case(rng) for _ in range(600)] + \
+        [_colrel_case(rng) for _ in range(600)] + [_bigint_nd_case(rng) for _ in range(300)]
 
 
 # --------------------------------------------------------------------------- implementation side
@@ -393,6 +547,27 @@ _NP_PRED = {
     "outside": lambda a: (lambda e: (e < a[0]) | (e > a[1])),
     "even8": lambda a: (lambda e: np.mod(e * 8, 2) == 0),
     "true": lambda a: (lambda e: np.ones(np.shape(e), dtype=bool)),
+    # functions of the criterion as a whole (the function receives the whole column, as documented)
+    "ge_median": lambda a: (lambda e: e >= np.median(e)),
+    "gt_median": lambda a: (lambda e: e > np.median(e)),
+    "le_median": lambda a: (lambda e: e <= np.median(e)),
+    "lt_median": lambda a: (lambda e: e < np.median(e)),
+    "ge_mean": lambda a: (lambda e: e >= np.mean(e)),
+    "gt_mean": lambda a: (lambda e: e > np.mean(e)),
+    "le_mean": lambda a: (lambda e: e <= e.mean()),
+    "lt_mean": lambda a: (lambda e: e < e.mean()),
+    "ge_lomed": lambda a: (lambda e: e >= np.sort(e)[(len(e) - 1) // 2]),
+    "gt_lomed": lambda a: (lambda e: e > np.sort(e)[(len(e) - 1) // 2]),
+    "le_lomed": lambda a: (lambda e: e <= np.sort(e)[(len(e) - 1) // 2]),
+    "lt_lomed": lambda a: (lambda e: e < np.sort(e)[(len(e) - 1) // 2]),
+    "eq_max": lambda a: (lambda e: e == e.max()),
+    "lt_max": lambda a: (lambda e: e < np.max(e)),
+    "eq_min": lambda a: (lambda e: e == e.min()),
+    "gt_min": lambda a: (lambda e: e > np.min(e)),
+    "top": lambda a: (lambda e: (e[None, :] > e[:, None]).sum(axis=1) < a[0]),
+    "bottom": lambda a: (lambda e: (e[None, :] < e[:, None]).sum(axis=1) < a[0]),
+    "lower_half_range": lambda a: (lambda e: e - e.min() <= (e.max() - e.min()) / 2),
+    "upper_half_range": lambda a: (lambda e: e - e.min() >= (e.max() - e.min()) / 2),
 }
 
 
@@ -415,9 +590,11 @@ def _build(run):
 
 
 def _dm_obs(dm):
+    a = dm.matrix.to_numpy()
     return {
         "alts": [str(a) for a in dm.alternatives],
-        "matrix": np.asarray(dm.matrix.to_numpy(), dtype=float).tolist(),
+        # an all-integer matrix is reported as the (exact) integers it holds, anything else as doubles
+        "matrix": a.tolist() if a.dtype.kind in "iu" else np.asarray(a, dtype=float).tolist(),
         "criteria": [str(c) for c in dm.criteria],
         "objectives": [int(o) for o in dm.iobjectives],
         "weights": [float(w) for w in dm.weights],
@@ -457,19 +634,25 @@ def _enc_cond(cls, v):
     return [v[0]] + [C.rat(x) for x in v[1:]]
 
 
-def _enc_run(run, version="fixed"):
+def _enc_run(run, version="fixed", dm=None):
     r = {"cls": run["cls"], "version": version}
     if run["cls"] == "NonDominated":
         r["strict"] = run["strict"]
     else:
-        r["conds"] = [[c, _enc_cond(run["cls"], v)] for c, v in run["conds"]]
+        conds = run["conds"]
+        if run["cls"] == "Fn":
+            # the model knows element-wise predicates: a whole-column function is sent as the element-wise condition it is on the
+            # criterion as given (absent criterion: the function is never called, any descriptor will do)
+            conds = [[c, (_col_induced(v, [C.F(row[dm["criteria"].index(c)]) for row in dm["matrix"]]) if c in dm["criteria"]
+                          else ["true"]) if v[0] in COLREL else v] for c, v in conds]
+        r["conds"] = [[c, _enc_cond(run["cls"], v)] for c, v in conds]
         r["ignore_missing"] = run["ignore"]
     return r
 
 
 def requests(case, obs):
     dm = case["dm"]
-    runs = [_enc_run(r) for r in case["runs"]]
+    runs = [_enc_run(r, dm=dm) for r in case["runs"]]
     # the pre-fix pairing, as a diagnosis when an arithmetic run fails
     runs += [_enc_run(r, "v0") for r in case["runs"] if r["cls"] in ARITH]
     base = {"criteria": dm["criteria"], "alternatives": dm["alternatives"], "matrix": C.ratmat(dm["matrix"]),
@@ -535,6 +718,9 @@ def oracle(dm, run):
         for c, v in run["conds"]:
             if c not in crits:
                 continue  # only that condition is skipped
+            if run["cls"] == "Fn" and v[0] in COLREL:
+                # a function of the criterion as a whole: judged on the criterion AS GIVEN (all the alternatives of the matrix)
+                v = _col_induced(v, [C.F(r[crits.index(c)]) for r in rows])
             if not _sat(run["cls"], rows[i][crits.index(c)], v):  # value looked up BY CRITERION LABEL
                 ok = False
         if ok:
@@ -661,6 +847,8 @@ def tags(case, obs):
             cols = list(zip(*dm["matrix"]))
             if any(x != y and abs(x - y) <= 1e-5 * max(abs(x), abs(y)) for col in cols for x in set(col) for y in set(col)):
                 t.append("nd:two-alternatives-differ-by-a-tiny-amount")
+            if dm.get("int_matrix") and any(x != y and float(x) == float(y) for col in cols for x in set(col) for y in set(col)):
+                t.append("nd:int-matrix,two-values-beyond-2^53-differ-but-are-the-same-double")
             continue
         if run["cls"] in SETS:
             for c, v in run["conds"]:
@@ -675,6 +863,12 @@ def tags(case, obs):
                             t.append("set:13+values,shared-value-in-set")
                         if any(x not in v for x in sh):
                             t.append("set:13+values,shared-value-not-in-set")
+        if run["cls"] == "Fn" and any(v[0] in COLREL for _, v in run["conds"]):
+            t.append("fn:whole-column-condition")
+            if any(v[0] in COLREL for _, v in run["conds"][1:]):
+                t.append("fn:whole-column-condition-not-written-first")
+            if _fn_survivors(dm, run["conds"]) != _fn_survivors(dm, run["conds"], on_the_fly=True):
+                t.append("fn:earlier-conditions-reject-alternatives-that-shift-a-later-column-statistic")
         t.append("ignore" if run["ignore"] else "no-ignore")
         present = [c for c, _ in run["conds"] if c in crits]
         if len(present) < len(run["conds"]):
